@@ -6,7 +6,8 @@
       4  regression: failing slow store, producer must not leak              -> (1) = error returned
       5  merge end to end, repeated under different GOMAXPROCS / yields      -> (0) = all runs agree
       6  regression: store Get failing during a merge (errChan capacity)     -> (1) = error returned
-      7  ingest as kind 0 with varying-length keys in the second column      -> Pool.run_ingest *)
+      7  ingest as kind 0 with varying-length keys in the second column      -> Pool.run_ingest
+      8  diff / merge with real progress ticks, watchdog on Stop/Error/Close -> (0) = returned, nothing left *)
 From W.lib Require Import Tree.
 From W.model Require Import Pool PoolFlow.
 
